@@ -41,3 +41,32 @@ impl<'a> OutputBuffer<'a> {
 //@  contract
         ensures final(self).s_pos() == position, final(self).s_max() == old(self).s_max(), final(self).s_buf() == old(self).s_buf(),
 //@end
+
+//@extract fn write_slice in impl<'a> OutputBuffer<'a> from miniz_oxide/src/inflate/output_buffer.rs
+//@  contract
+        requires old(self).s_pos() + data@.len() <= old(self).s_buf().len(), old(self).s_buf().len() <= 0x7FFF_FFFF_FFFF_FFFF,
+        ensures
+            final(self).s_pos() == old(self).s_pos() + data@.len(), final(self).s_max() == old(self).s_max(),
+            final(self).s_buf().len() == old(self).s_buf().len(),
+            forall|k: int| 0 <= k < data@.len() ==> final(self).s_buf()[old(self).s_pos() + k] == data@[k],
+            forall|k: int| 0 <= k < old(self).s_buf().len() && !(old(self).s_pos() <= k < old(self).s_pos() + data@.len()) ==> final(self).s_buf()[k] == old(self).s_buf()[k],
+//@end
+
+//@extract struct InputWrapper from miniz_oxide/src/inflate/output_buffer.rs
+//@end
+
+impl<'a> InputWrapper<'a> {
+    pub closed spec fn s_in(&self) -> Seq<u8> { self.slice@ }
+}
+
+//@extract fn advance in impl<'a> InputWrapper<'a> from miniz_oxide/src/inflate/output_buffer.rs
+//@  contract
+        requires steps <= old(self).s_in().len(),
+        ensures final(self).s_in() == old(self).s_in().subrange(steps as int, old(self).s_in().len() as int),
+//@end
+
+//@extract fn bytes_left in impl<'a> InputWrapper<'a> from miniz_oxide/src/inflate/output_buffer.rs
+//@  rename res
+//@  contract
+        ensures res == self.s_in().len(),
+//@end
